@@ -664,10 +664,11 @@ func (ndb *nodeDB) DeleteVersionsFrom(fromVersion int64) error {
 		}
 		// Update the legacy latest version forcibly
 		ndb.legacyLatestVersion = 0
-		fromVersion = legacyLatestVersion + 1
 	}
 
 	// Delete the nodes for new format (collected first, see above)
+	// (from the requested version on, not only above the latest legacy version: a commit without
+	// changes on top of a legacy version re-formats the legacy root as (version, 0))
 	var nodeKeys [][]byte
 	if err = ndb.traverseRange(nodeKeyPrefixFormat.KeyInt64(fromVersion), nodeKeyPrefixFormat.KeyInt64(latest+1), func(k, _ []byte) error {
 		nodeKeys = append(nodeKeys, append([]byte(nil), k...))
@@ -965,11 +966,19 @@ func (ndb *nodeDB) getLatestVersion() (bool, int64, error) {
 	}
 	defer itr.Close()
 
-	if itr.Valid() {
+	for ; itr.Valid(); itr.Next() {
 		k := itr.Key()
 		var nk []byte
 		nodeKeyFormat.Scan(k, &nk)
-		latestVersion = GetNodeKey(nk).version
+		nodeKey := GetNodeKey(nk)
+		if nodeKey.nonce == 0 {
+			// (version, 0) is a re-formatted root - of a deleted version which the next version
+			// still uses, or of a legacy version on which a version was committed without
+			// changes - and may be all that a rollback left in the new format: it does not
+			// stand for a version.
+			continue
+		}
+		latestVersion = nodeKey.version
 		ndb.resetLatestVersion(latestVersion)
 		return true, latestVersion, nil
 	}
